@@ -289,15 +289,21 @@ def rule_bindseq(ctx):
         fn = None
         for bi, b in enumerate(f["blocks"]):
             t = b["term"]
-            if t["k"] != "call" or t.get("callee_name") != "bind_many" or not t["args"]:
+            if t["k"] != "call" or not t["args"]:
                 continue
+            if t.get("callee_name") != "bind_many":
+                # the same function under another name: a lifting call (by role) whose subject is a sequence of arguments
+                a0 = t["args"][0]
+                ty0 = f["locals"][a0["pl"]["l"]]["ty"] if a0.get("pl") and not a0["pl"]["p"] else ""
+                if not (_is_lift(t, f) and ("VecDeque<" in ty0 or "Arguments" in ty0 or ty0.startswith(("std::vec::Vec<", "Vec<"))) and "Argument" in ty0):
+                    continue
             fn = fn or Fn(f)
             if bi not in fn.reach:
                 continue
             flow = prov.make_flow(fn, fx, extra_names=())
             roots = prov.collection_roots(fn, flow, t["args"][0], fx=fx)
             n += 1
-            ikey = "%s@bind_many:%d" % (k, sum(1 for b2 in f["blocks"][:bi] if b2["term"]["k"] == "call" and b2["term"].get("callee_name") == "bind_many"))
+            ikey = "%s@bind_many:%d" % (k, sum(1 for b2 in f["blocks"][:bi] if b2["term"]["k"] == "call" and b2["term"].get("callee_name") == t.get("callee_name")))
             other = [r for r in roots if not (r and r[0] == "arg")]
             if roots and not other:
                 res.inst(ikey, t["sp"]["file"], t["sp"]["line"], "ok", "the sequence is %s" % ", ".join(sorted({".".join(map(str, r[2])) or "the parameter" for r in roots})))
